@@ -27,6 +27,12 @@ pub struct Case {
     /// 4 the magic's first three bytes, 5 its last three
     #[serde(default)]
     pub decoys: Vec<(usize, u8)>,
+    /// (position, number of tags, slack words) of complete valid headers (magic,
+    /// architecture, length, valid checksum, tags, end tag); the stored length
+    /// covers `slack` further 8-byte words behind the end tag (as a linker that
+    /// stores the padded section size does)
+    #[serde(default)]
+    pub full: Vec<(usize, u8, u8)>,
 }
 
 const DECOYS: [&[u8]; 6] = [
@@ -57,6 +63,22 @@ pub fn buffer(c: &Case) -> Vec<u8> {
     }
     for (pos, kind) in &c.decoys {
         for (k, b) in DECOYS[*kind as usize % DECOYS.len()].iter().enumerate() {
+            if pos + k < v.len() {
+                v[pos + k] = *b;
+            }
+        }
+    }
+    for (pos, ntags, slack) in &c.full {
+        use mb2_model::encode::{conformant_hdr_tag, hdr_end_tag};
+        let mut tags: Vec<Vec<u8>> = (0..*ntags as u32 % 4).map(|j| conformant_hdr_tag(2 + j, c.key, 1, 0)).collect();
+        tags.push(hdr_end_tag());
+        let mut h = mb2_model::encode::hdr(if c.key & 2 == 0 { 0 } else { 4 }, &tags, 0);
+        h.extend(std::iter::repeat(0u8).take(8 * (*slack as usize % 8)));
+        let l = h.len() as u32;
+        put32(&mut h, 8, l);
+        let ck = mb2_model::walk::model_checksum(le32(&h, 0), le32(&h, 4), l);
+        put32(&mut h, 12, ck);
+        for (k, b) in h.iter().enumerate() {
             if pos + k < v.len() {
                 v[pos + k] = *b;
             }
@@ -257,7 +279,7 @@ fn strategy_seq(ctx: &Ctx) -> BoxedStrategy<SeqCase> {
                 }))
             })
             .collect();
-        Case { len, key: key & !1, plants, prefix: 0, decoys: vec![] }
+        Case { len, key: key & !1, plants, prefix: 0, decoys: vec![], full: vec![] }
     });
     prop_oneof![4 => proptest::collection::vec(one, 2..=6), 1 => proptest::collection::vec(strategy(ctx), 2..=4)].prop_map(|searches| SeqCase { searches }).boxed()
 }
@@ -271,7 +293,7 @@ fn lens_of_interest() -> Vec<usize> {
 pub fn enumerate(_: &Ctx) -> Box<dyn Iterator<Item = Case>> {
     let mut v = Vec::new();
     for len in lens_of_interest() {
-        v.push(Case { len, key: len as u64, plants: vec![], prefix: 0, decoys: vec![] });
+        v.push(Case { len, key: len as u64, plants: vec![], prefix: 0, decoys: vec![], full: vec![] });
         // a magic at every interesting position relative to this length and the window
         let mut pos: Vec<usize> = vec![0, 1, 4, 8, 16, 24];
         for d in 0..=16 {
@@ -290,7 +312,16 @@ pub fn enumerate(_: &Ctx) -> Box<dyn Iterator<Item = Case>> {
                 continue;
             }
             for l in [0u32, 16, (len.saturating_sub(p)) as u32, (len.saturating_sub(p) + 1) as u32, 1 << 31, u32::MAX] {
-                v.push(Case { len, key: (len * 31 + p) as u64, plants: vec![(p, l)], prefix: 0, decoys: vec![] });
+                v.push(Case { len, key: (len * 31 + p) as u64, plants: vec![(p, l)], prefix: 0, decoys: vec![], full: vec![] });
+            }
+        }
+    }
+    // complete valid headers (checksum, tags, end tag) whose stored length covers
+    // 0..=3 further words behind the end tag
+    for ntags in 0..4u8 {
+        for slack in 0..4u8 {
+            for pos in [0usize, 8, 64] {
+                v.push(Case { len: 256, key: (ntags as u64) << 4 | slack as u64 | 0xF00, plants: vec![], prefix: 0, decoys: vec![], full: vec![(pos, ntags, slack)] });
             }
         }
     }
@@ -298,8 +329,8 @@ pub fn enumerate(_: &Ctx) -> Box<dyn Iterator<Item = Case>> {
     for kind in 0..DECOYS.len() as u8 {
         for len in [64usize, 200] {
             for dp in [0usize, 8, 16, 32] {
-                v.push(Case { len, key: (len + dp) as u64 ^ 0xDEC, plants: vec![], prefix: 0, decoys: vec![(dp, kind)] });
-                v.push(Case { len, key: (len + dp) as u64 ^ 0xDEC, plants: vec![(48, 16)], prefix: 0, decoys: vec![(dp, kind)] });
+                v.push(Case { len, key: (len + dp) as u64 ^ 0xDEC, plants: vec![], prefix: 0, decoys: vec![(dp, kind)], full: vec![] });
+                v.push(Case { len, key: (len + dp) as u64 ^ 0xDEC, plants: vec![(48, 16)], prefix: 0, decoys: vec![(dp, kind)], full: vec![] });
             }
         }
     }
@@ -309,8 +340,8 @@ pub fn enumerate(_: &Ctx) -> Box<dyn Iterator<Item = Case>> {
         for len in [96usize, 4096, 9000] {
             for p in (8..128).step_by(8) {
                 if p + 16 <= len {
-                    v.push(Case { len, key: (len + p) as u64, plants: vec![(p, 16)], prefix, decoys: vec![] });
-                    v.push(Case { len, key: (len + p) as u64, plants: vec![(p, (len - p + 1) as u32)], prefix, decoys: vec![] });
+                    v.push(Case { len, key: (len + p) as u64, plants: vec![(p, 16)], prefix, decoys: vec![], full: vec![] });
+                    v.push(Case { len, key: (len + p) as u64, plants: vec![(p, (len - p + 1) as u32)], prefix, decoys: vec![], full: vec![] });
                 }
             }
         }
@@ -354,7 +385,8 @@ pub fn strategy(_: &Ctx) -> BoxedStrategy<Case> {
                     (pos, lw)
                 })
                 .collect();
-            Case { len, key, plants, prefix, decoys }
+            let full = if key % 5 == 0 && len >= 64 { vec![(((key >> 8) as usize % (len - 40)) / 8 * 8, (key >> 16) as u8, (key >> 20) as u8)] } else { vec![] };
+            Case { len, key, plants, prefix, decoys, full }
         })
         .boxed()
 }
@@ -362,7 +394,7 @@ pub fn strategy(_: &Ctx) -> BoxedStrategy<Case> {
 pub fn subs() -> Vec<Box<dyn Sub>> {
     vec![Box::new(PropSub::<Case> {
         name: "find",
-        rule: "8-aligned buffers ending at a PROT_NONE page, marker background with accidental magics broken, 0..=3 planted magics, optionally starting with an ELF32/ELF64/PE/a.out file identification, optionally with look-alikes that are not the magic (the header in big-endian byte order, the boot-information and Multiboot 1 magics, partial magics). Enumerated: for each identification a header at every aligned position of the first 128 bytes; every length 0..=96 and 8150..=8230 x magic positions {0,1,4,8,16,24, len-16..len, 8192-16..8192+16} x stored length {0, 16, exactly to the end, end+1, 2^31, 2^32-1}; generated: lengths to 16 KiB, aligned/misaligned/straddling positions, random lengths. Oracle: first magic inside min(len,8192) bytes decides: none => Ok(None); misaligned or length word/body outside the buffer => some Err; else exactly buffer[i..i+L] and index i; panic or fault is a violation. Non-trivial = a magic is present or the buffer is shorter than 8192; distinct by buffer hash",
+        rule: "8-aligned buffers ending at a PROT_NONE page, marker background with accidental magics broken, 0..=3 planted magics, complete valid headers (checksum, tags, end tag, stored length covering further words behind the end tag), optionally starting with an ELF32/ELF64/PE/a.out file identification, optionally with look-alikes that are not the magic (the header in big-endian byte order, the boot-information and Multiboot 1 magics, partial magics). Enumerated: for each identification a header at every aligned position of the first 128 bytes; every length 0..=96 and 8150..=8230 x magic positions {0,1,4,8,16,24, len-16..len, 8192-16..8192+16} x stored length {0, 16, exactly to the end, end+1, 2^31, 2^32-1}; generated: lengths to 16 KiB, aligned/misaligned/straddling positions, random lengths. Oracle: first magic inside min(len,8192) bytes decides: none => Ok(None); misaligned or length word/body outside the buffer => some Err; else exactly buffer[i..i+L] and index i; panic or fault is a violation. Non-trivial = a magic is present or the buffer is shorter than 8192; distinct by buffer hash",
         profiles: Profiles::Both,
         quick: 5000,
         thorough: 200000,
